@@ -10,6 +10,22 @@ set_option linter.unusedSimpArgs false
 namespace CimbaModel.HashHeap
 open CimbaModel CimbaModel.KPQ
 
+/-! ### three facts about duplicate-free lists (core Lean only) -/
+
+theorem nodup_of_map {α β : Type} (f : α → β) {l : List α} (h : (l.map f).Nodup) : l.Nodup := by
+  unfold List.Nodup at *
+  rw [List.pairwise_map] at h
+  exact h.imp (fun hne heq => hne (congrArg f heq))
+
+theorem nodup_map_on {α β : Type} {f : α → β} {l : List α}
+    (hinj : ∀ x, x ∈ l → ∀ y, y ∈ l → f x = f y → x = y) (h : l.Nodup) : (l.map f).Nodup := by
+  unfold List.Nodup at *
+  rw [List.pairwise_map]
+  exact h.imp_of_mem (fun hx hy hne heq => hne (hinj _ hx _ hy heq))
+
+theorem nodup_filter {α : Type} (p : α → Bool) {l : List α} (h : l.Nodup) : (l.filter p).Nodup :=
+  List.Pairwise.filter p h
+
 /-! ### membership in the abstraction -/
 
 theorem mem_abs (s : HH) (x : HTag) : x ∈ abs s ↔ ∃ i, InR s.count i ∧ norm (s.tag i) = x := by
@@ -67,7 +83,7 @@ theorem WF.keys_nodup {s : HH} (h : WF lt s) : (keys (abs s)).Nodup := by
   rw [keys_abs]
   unfold liveTags
   rw [List.map_map]
-  apply List.Nodup.map_on _ List.nodup_range
+  apply nodup_map_on _ List.nodup_range
   intro x hx y hy hxy
   have hx := List.mem_range.mp hx
   have hy := List.mem_range.mp hy
@@ -77,7 +93,7 @@ theorem WF.keys_nodup {s : HH} (h : WF lt s) : (keys (abs s)).Nodup := by
 theorem WF.abs_nodup {s : HH} (h : WF lt s) : (abs s).Nodup := by
   have := h.keys_nodup
   unfold keys at this
-  exact List.Nodup.of_map _ this
+  exact nodup_of_map _ this
 
 theorem WF.keys_ne_zero {s : HH} (h : WF lt s) {k : Nat} (hk : k ∈ keys (abs s)) : k ≠ 0 ∧ k < 2 ^ 64 := by
   obtain ⟨i, hi, rfl⟩ := (mem_keys_abs s k).1 hk
@@ -195,7 +211,7 @@ theorem remove_abs [StrictWeak lt] {s : HH} (h : WF lt s) (k : Nat) (hk0 : k ≠
     obtain ⟨s', hrun, hwf', hc, he, hei, hct, hl⟩ := remove_present h hi
     refine ⟨s', by rw [hrun]; simp [hk], hwf', ?_, he, hei, hct⟩
     unfold KPQ.remove
-    rw [List.perm_ext_iff_of_nodup hwf'.abs_nodup (h.abs_nodup.filter _)]
+    rw [List.perm_ext_iff_of_nodup hwf'.abs_nodup (nodup_filter _ h.abs_nodup)]
     intro x
     rw [List.mem_filter, mem_abs_of_live, mem_abs]
     constructor
@@ -230,7 +246,7 @@ theorem reprio_abs [StrictWeak lt] {s : HH} (h : WF lt s) {k : Nat} (hk : k ∈ 
     simp only [Function.comp]
     split <;> rfl
   have hnd : (KPQ.reprio (abs s) (s.tag a).key d i).Nodup :=
-    List.Nodup.of_map (·.key) (by rw [hkeys]; exact h.keys_nodup)
+    nodup_of_map (·.key) (by rw [hkeys]; exact h.keys_nodup)
   rw [List.perm_ext_iff_of_nodup hwf'.abs_nodup hnd]
   intro x
   unfold KPQ.reprio
